@@ -356,6 +356,10 @@ def audit(form, xform):
                 bt = base_type(x[2])
                 if bt in NO_CONTROL:
                     continue
+                # a computed or triggered row is presented only when it has something to show: a label or a hint (Question.xml_control)
+                cells = {"_".join(k.split("::")[0].split(":")[0].split()).lower() for k, v in x[2].items() if v}
+                if ("calculation" in cells or "calculate" in cells or "trigger" in cells) and not ({"label", "hint"} & cells):
+                    continue
                 tag = CONTROL_TAG.get(bt)
                 if bt == "select_one_external":
                     tag = "input"
@@ -415,7 +419,7 @@ def _check(args):
     if rng.random() < 0.3:
         survey.insert(rng.randint(0, len(survey)), {"relevant": "comment row without type name or label"})
     if i % 3 == 2:
-        forms.add_exotics(rng_for(seed, PID, "exotic", i), form, ["count_expr", "count_expr", "empty_group", "calc_msgs"], p=0.5)
+        forms.add_exotics(rng_for(seed, PID, "exotic", i), form, ["count_expr", "count_expr", "empty_group", "calc_msgs", "hint_only_computed", "hint_only_computed", "seeded_select"], p=0.5)
     st, r = xf.convert_form(forms.as_dict(form))
     if st != "ok":
         return {"i": i, "skip": st + ":" + str(r)[:60]}
